@@ -7,7 +7,7 @@ package primers
 // verif:bound C17 sequence clause: orders 1..4 (quick) / 1..6 (thorough); a closed computation executed by the engine (no symbolic input, the solver decides nothing here)
 // verif:bound C17 barcode clauses: order 2 (quick) / 2..3 (thorough), barcode length n..5 (quick) / n..7 at order 2 and 3..5 at order 3 (thorough), 0..2 banned sequences as symbolic strings of length 2..3 over ATGC, 0..2 filters, each rejecting an arbitrary (symbolic) set of windows (one window per filter; two when there is a single filter in the thorough tier at order 2); at most 2 (quick) / 3 (thorough, order 2) / 1 (thorough, order 3) bans+filters together
 // verif:bound C17 short-ban clause: order 3, barcode length 3..4 (quick) / 3..5 (thorough), one or two symbolic bans of length 1..2 (shorter than the order, so they occur many times)
-// verif:bound C17 many-passes clause: order 4 (quick) / 4..5 (thorough), barcode length n..n+1, two (quick) / two or three (thorough) symbolic bans of length 2: bans that keep re-introducing each other, so that one window needs many re-check passes
+// verif:bound C17 many-passes clause: order 4 (quick) / 4..5 (thorough), barcode length n..n+1, two symbolic bans of length 2: bans that keep re-introducing each other, so that one window needs many re-check passes
 // verif:bound C17 reused-ban-list clause: order 2, length 3, a list of three 2-letter bans (two symbolic, one fixed); a call with its first 1..2 entries, then a call with the whole list: the list is untouched and the second result honours every ban
 // verif:bound C17 outside the claim: orders 7..11 for the sequence, orders > 3 and lengths > 7 for barcodes, more than one ban or filter at order 3, more than 2 bans / filters
 
@@ -168,9 +168,6 @@ func Harness_C17_ManyPasses() {
 	order := 4 + vChoice(vTier(1, 2))
 	length := order + vChoice(2)
 	bans := []string{vBytes(2, "ATGC"), vBytes(2, "ATGC")}
-	if vChoice(vTier(1, 2)) == 1 {
-		bans = append(bans, vBytes(2, "ATGC"))
-	}
 	vTerminates(30000000)
 	var codes []string
 	panicked := vPanics(func() { codes = CreateBarcodesWithBannedSequences(length, order, bans, nil) })
